@@ -10,6 +10,7 @@ import (
 	"runtime"
 	"strconv"
 	"strings"
+	"sync"
 	"time"
 
 	"github.com/ichiban/prolog"
@@ -141,4 +142,107 @@ func solutionsHandle(c map[string]J) map[string]J {
 		}
 	}
 	return map[string]J{"status": "ok", "input": strings.Join(desc, "; ")}
+}
+
+// Family "soltrace" (C12, schedules): the same cases as "solutions", but what is returned is the merged log of the
+// steps the hooks in Next, Close and the search goroutine report, in the order of a global sequence number. TLC
+// validates it against SolutionsTrace.tla.
+func init() {
+	register("soltrace", &family{handle: soltraceHandle})
+}
+
+func soltraceHandle(c map[string]J) map[string]J {
+	kinds := c["kind"].([]J)
+	if len(kinds) != 1 {
+		return map[string]J{"status": "discard", "why": "one Solutions per schedule trace"}
+	}
+	var out strings.Builder
+	p := prolog.New(strings.NewReader(""), &out)
+	var mu sync.Mutex
+	var events []map[string]J
+	var target *prolog.Solutions
+	prolog.VerifSolEvent = func(s *prolog.Solutions, ev string) {
+		mu.Lock()
+		defer mu.Unlock()
+		if target != nil && s != target {
+			return
+		}
+		if ev == "next_end" {
+			ev = "next_end:?" // patched with the value once the call has returned to the harness
+		}
+		events = append(events, map[string]J{"ev": ev})
+	}
+	defer func() { prolog.VerifSolEvent = nil }()
+	q := solutionsQuery(kinds[0].(map[string]J), "a")
+	sols, err := p.Query(q)
+	if err != nil {
+		return map[string]J{"status": "badcase", "detail": err.Error()}
+	}
+	mu.Lock()
+	target = sols
+	mu.Unlock()
+	var desc []string
+	for _, x := range c["hist"].([]J) {
+		h := x.(map[string]J)
+		op := h["op"].(string)
+		desc = append(desc, op)
+		ch := make(chan struct{})
+		go func() {
+			defer close(ch)
+			switch op {
+			case "Next":
+				// the return value is known to the hook only through this variable: Next's deferred hook fires after the
+				// value was computed, so it is set from a wrapper around the call
+				ret := sols.Next()
+				mu.Lock()
+				for i := len(events) - 1; i >= 0; i-- {
+					if events[i]["ev"] == "next_end:?" {
+						events[i]["ev"] = "next_end:" + strconv.FormatBool(ret)
+						break
+					}
+				}
+				mu.Unlock()
+			case "Close":
+				_ = sols.Close()
+			case "Scan":
+				var r struct{ X int }
+				_ = sols.Scan(&r)
+			case "Err":
+				_ = sols.Err()
+			}
+		}()
+		select {
+		case <-ch:
+		case <-time.After(2 * time.Second):
+			return map[string]J{"status": "mismatch", "input": q + " " + strings.Join(desc, " "), "what": "the call did not return within 2s", "expected": "returns", "observed": "blocked", "fatal": true}
+		}
+	}
+	_ = sols.Close()
+	deadline := time.Now().Add(time.Second)
+	for time.Now().Before(deadline) {
+		mu.Lock()
+		n := len(events)
+		last := ""
+		if n > 0 {
+			last, _ = events[n-1]["ev"].(string)
+		}
+		seen := false
+		for _, e := range events {
+			if e["ev"] == "g_exit" {
+				seen = true
+			}
+		}
+		mu.Unlock()
+		_ = last
+		if seen {
+			break
+		}
+		time.Sleep(200 * time.Microsecond)
+	}
+	time.Sleep(200 * time.Microsecond)
+	mu.Lock()
+	evs := append([]map[string]J{}, events...)
+	mu.Unlock()
+	// the return value of each Next: patch "next_end:?" with the value observed by the caller, in order
+	return map[string]J{"status": "recorded", "events": evs, "input": q + " " + strings.Join(desc, " ")}
 }
